@@ -9,9 +9,13 @@ import (
 	"errors"
 	"fmt"
 	"math/rand"
+	"os"
+	"runtime/pprof"
 	"sort"
 	"strconv"
 	"strings"
+	"sync"
+	"sync/atomic"
 	"time"
 
 	commonmodels "github.com/lindb/common/models"
@@ -41,20 +45,24 @@ func (area) Name() string { return "pipeline" }
 // ---------------------------------------------------------------- stage trees
 
 type node struct {
-	id       int
-	async    bool // pooled stage (baseStage.ctx and execPool set)
-	rej      byte // 0: the pool accepts the task; 'X': stopped pool; 'C': cancelled context on a saturated pool
-	queued   bool // 'Q': pooled on a 1-worker pool whose worker is busy; the stage's context is cancelled
+	id     int
+	async  bool // pooled stage (baseStage.ctx and execPool set)
+	rej    byte // 0: the pool accepts the task; 'X': stopped pool; 'C': cancelled context on a saturated pool
+	queued bool // 'Q': pooled on a 1-worker pool whose worker is busy; the stage's context is cancelled
 	//               after Submit accepted the task and before a worker picks it up
-	cancel   context.CancelFunc
-	cwait    chan struct{} // non-nil: the stage's Complete() hook parks until the harness closes it
-	out      byte // 'o' ok, 'e' error, 'p' execution panics, 'l' Plan() panics, 'n' NextStages() panics
-	children []*node
-	parent   *node
+	stopRace bool // 'Z': pooled on a saturated 1-worker pool; the pool is stopped while Submit is blocked on
+	//               the full queue (Stop() racing Submit), then the queue is drained
+	submitted chan struct{} // 'Z': closed when the goroutine that started the stage is seen to go on after Submit
+	cancel    context.CancelFunc
+	cwait     chan struct{} // non-nil: the stage's Complete() hook parks until the harness closes it
+	out       byte          // 'o' ok, 'e' error, 'p' execution panics, 'l' Plan() panics, 'n' NextStages() panics
+	children  []*node
+	parent    *node
 
 	// run state
 	thread   int // goroutine that executes the stage (assigned when it is launched), -1 before
 	executed bool
+	ncomp    int // Complete() calls (completeStage calls) seen for the stage
 	gate     chan struct{}
 }
 
@@ -68,6 +76,9 @@ func (n *node) token() string {
 	}
 	if n.queued {
 		k = "Q"
+	}
+	if n.stopRace {
+		k = "Z"
 	}
 	return fmt.Sprintf("%s%c%d", k, n.out, len(n.children))
 }
@@ -109,6 +120,7 @@ func tree(s string) *node {
 			n.rej = s[pos]
 		}
 		n.queued = s[pos] == 'Q'
+		n.stopRace = s[pos] == 'Z'
 		pos += 2
 		if pos < len(s) && s[pos] == '(' {
 			pos++
@@ -180,7 +192,7 @@ func genTree(r *rand.Rand, kind genKind, maxNodes int) *node {
 	}
 	budget := 1 + r.Intn(maxNodes)
 	asyncP := []int{20, 50, 80}[r.Intn(3)]
-	haveQ := new(bool)
+	haveQ, haveZ := new(bool), new(bool)
 	var build func(depth int, onMain bool) *node
 	build = func(depth int, onMain bool) *node {
 		budget--
@@ -197,6 +209,9 @@ func genTree(r *rand.Rand, kind genKind, maxNodes int) *node {
 		}
 		if n.async && n.rej == 0 && !*haveQ && r.Intn(12) == 0 {
 			n.queued, *haveQ = true, true
+		}
+		if n.async && n.rej == 0 && !n.queued && !*haveZ && r.Intn(16) == 0 {
+			n.stopRace, *haveZ = true, true
 		}
 		if depth < 4 {
 			fan := r.Intn(4)
@@ -331,6 +346,69 @@ func (e *env) close() {
 	e.pool.Stop()
 }
 
+// sigCtx is the context of a 'Z' stage: workerPool.Submit evaluates ctx.Done() when it enters its
+// select, i.e. after the `p.Stopped()` check; the first call tells the harness that Submit is past
+// that check. It is never done.
+type sigCtx struct {
+	context.Context
+	once sync.Once
+	sig  chan struct{}
+}
+
+func (c *sigCtx) Done() <-chan struct{} {
+	c.once.Do(func() { close(c.sig) })
+	return nil
+}
+func (c *sigCtx) Err() error { return nil }
+
+var zPoolSeq atomic.Int64
+
+// stopRacePool builds the pool of a 'Z' stage: 1 worker busy with a blocker, the dispatcher holding
+// one filler, 8 fillers in the queue (full). When Submit of the stage's task is past its Stopped()
+// check (sig) the pool is stopped and the worker freed; the last filler waits until the stage's task
+// is in the queue behind it, so the drain (or the dispatcher) finds it.
+func (r *runner) stopRacePool(n *node) (context.Context, concurrent.Pool) {
+	// every pool needs statistics of its own: the worker accounting (WorkersAlive) lives there
+	name := fmt.Sprintf("verif-c19-z-%d", zPoolSeq.Add(1))
+	p := concurrent.NewPool(name, 1, time.Minute, metrics.NewConcurrentStatistics(name, linmetric.BrokerRegistry))
+	free, started := make(chan struct{}), make(chan struct{})
+	p.Submit(context.Background(), concurrent.NewTask(func() { close(started); <-free }, nil))
+	<-started
+	done := r.done
+	for i := 0; i < 9; i++ {
+		last := i == 8
+		p.Submit(context.Background(), concurrent.NewTask(func() {
+			if !last {
+				return
+			}
+			// the last filler ends only when Submit of the stage's task has returned (the goroutine that
+			// started the stage went on): the task is then in the queue, or already with the dispatcher
+			select {
+			case <-n.submitted:
+			case <-done:
+			case <-time.After(10 * time.Second):
+			}
+		}, nil))
+	}
+	n.submitted = make(chan struct{})
+	ctx := &sigCtx{Context: context.Background(), sig: make(chan struct{})}
+	go func() {
+		select {
+		case <-ctx.sig:
+		case <-done: // the stage was never started
+		}
+		stopped := make(chan struct{})
+		go func() { p.Stop(); close(stopped) }()
+		// Stop() has set the stopped flag before it waits for the dispatcher; only then free the worker
+		for !p.Stopped() {
+			time.Sleep(10 * time.Microsecond)
+		}
+		close(free)
+		<-stopped
+	}()
+	return ctx, p
+}
+
 type runner struct {
 	c       *core.Ctx
 	env     *env
@@ -341,9 +419,10 @@ type runner struct {
 	blocked map[int]*node // goroutine -> stage it is parked in front of
 	nextThr int
 	done    chan struct{} // closed at the end of the case
-	pendArr int // submitted tasks that have not reached their gate yet
-	parked  int // goroutines parked inside a Complete() hook: their Complete() was counted, their Dec is outstanding
-	queuedN *node // a 'Q' stage whose task was submitted and waits in the queue of the busy 1-worker pool
+	pendArr int           // submitted tasks that have not reached their gate yet
+	parked  int           // goroutines parked inside a Complete() hook: their Complete() was counted, their Dec is outstanding
+	zWait   *node         // a 'Z' stage whose Submit has not been seen to return yet
+	queuedN *node         // a 'Q' stage whose task was submitted and waits in the queue of the busy 1-worker pool
 	o       obs
 	failed  bool // some executed stage has failed or panicked so far
 }
@@ -382,6 +461,8 @@ func (r *runner) mkStage(n *node) stage.Stage {
 		},
 	}
 	switch {
+	case n.stopRace:
+		spec.Ctx, spec.Pool = r.stopRacePool(n)
 	case n.queued:
 		var qctx context.Context
 		qctx, n.cancel = context.WithCancel(context.Background())
@@ -465,7 +546,16 @@ func (r *runner) settleP(running int, patience time.Duration) (stalled bool) {
 				return true
 			}
 			r.o.timeout = fmt.Sprintf("no event for %v while goroutine %d was running (pending arrivals %d)", evTimeout, running, r.pendArr)
+			if os.Getenv("LVH_DUMP") != "" {
+				_ = pprof.Lookup("goroutine").WriteTo(os.Stderr, 2)
+			}
 			return false
+		}
+		if r.zWait != nil && !(e.kind == "plan" && e.n == r.zWait) {
+			// the first event after a 'Z' stage's plan event comes from the goroutine that started it,
+			// after Submit has returned
+			close(r.zWait.submitted)
+			r.zWait = nil
 		}
 		switch e.kind {
 		case "ident":
@@ -484,6 +574,11 @@ func (r *runner) settleP(running int, patience time.Duration) (stalled bool) {
 				e.n.thread = -1
 				r.failed = true
 				r.o.rejected = append(r.o.rejected, e.n)
+			case e.n.stopRace:
+				e.n.thread = r.nextThr
+				r.nextThr++
+				r.pendArr++
+				r.zWait = e.n
 			case e.n.queued:
 				e.n.thread = r.nextThr
 				r.nextThr++
@@ -508,6 +603,7 @@ func (r *runner) settleP(running int, patience time.Duration) (stalled bool) {
 			}
 		case "complete":
 			r.o.done++
+			e.n.ncomp++
 			if r.o.cb == 0 {
 				r.o.lastDone = e.n
 			}
@@ -565,19 +661,26 @@ func (r *runner) awaitDec() bool {
 		return true
 	}
 	// pending reached zero: complete() runs the CAS and the callback synchronously
-	select {
-	case e := <-r.ev:
-		if e.kind == "callback" {
-			r.o.cb++
-			r.o.cbErr = append(r.o.cbErr, e.err != nil)
-			r.o.regAtCb, r.o.doneAtCb, r.o.failedAtCb = r.o.reg, r.o.done, r.failed
+	cbDeadline := time.After(2 * time.Second)
+	for {
+		select {
+		case e := <-r.ev:
+			switch e.kind {
+			case "callback":
+				r.o.cb++
+				r.o.cbErr = append(r.o.cbErr, e.err != nil)
+				r.o.regAtCb, r.o.doneAtCb, r.o.failedAtCb = r.o.reg, r.o.done, r.failed
+				return true
+			case "qdone":
+				// the sentinel behind a 'Q' stage's task: that task has ended, nothing to do with the callback
+				continue
+			}
+			r.o.timeout = "unexpected event " + e.kind + " while waiting for the callback"
+			return false
+		case <-cbDeadline:
+			// pending is zero, completed was false, yet no callback: observed as such
 			return true
 		}
-		r.o.timeout = "unexpected event " + e.kind + " while waiting for the callback"
-		return false
-	case <-time.After(2 * time.Second):
-		// pending is zero, completed was false, yet no callback: observed as such
-		return true
 	}
 }
 
@@ -841,6 +944,15 @@ func (r *runner) oracle(c *core.Ctx, root *node, used []int, witness string) {
 	if o.cb > 1 {
 		c.Fail("callback-more-than-once", fmt.Sprintf("%s: completion callback fired %d times", what, o.cb))
 	}
+	for _, n := range r.all {
+		if n.ncomp > 1 {
+			c.Fail("stage-completed-more-than-once", fmt.Sprintf("%s: stage #%d was completed %d times (its task was both rejected and executed?)", what, n.id, n.ncomp))
+			break
+		}
+	}
+	if p, _ := r.state(); p < 0 {
+		c.Fail("pending-negative", fmt.Sprintf("%s: sm.pending ended at %d", what, p))
+	}
 	anyPanic := len(o.panicked) > 0
 	if o.cb == 0 {
 		// "never none"
@@ -932,6 +1044,10 @@ var fixed = []fixedCase{
 	// picks it up: the stage still has to be executed or completed with an error
 	{"So(Qo)", []int{0, 1}, ""},
 	{"So(Ao(Qe),Ao)", []int{0, 1, 3, 2}, ""},
+	// Pool.Stop() races a Submit that is blocked on the full queue: the task is executed by the drain,
+	// exactly once, and never rejected as well
+	{"So(Zo)", []int{0, 1}, ""},
+	{"So(Ao(Ze,Ao),Ao)", []int{0, 1, 2, 3, 4}, ""},
 	// (c) the pool rejects the task of a registered stage: stopped pool / cancelled context
 	{"So(Xo)", []int{0}, "witness-rejected-task-stopped-pool"},
 	{"So(Ao(Co,Ae))", []int{0, 1, 2}, "witness-rejected-task-cancelled-context"},
